@@ -4,7 +4,7 @@ use crate::agraph::*;
 use crate::engine::*;
 use crate::gmodel::*;
 use crate::util::pick;
-use petgraph::graph::{EdgeIndex, Graph, IndexType, NodeIndex};
+use petgraph::graph::{Graph, IndexType, NodeIndex};
 use petgraph::graphmap::GraphMap;
 use petgraph::stable_graph::StableGraph;
 use petgraph::{Directed, EdgeType, Undirected};
